@@ -296,6 +296,23 @@ def entries(seed, premade=None):
     reg('get_wmwf_vector[ref 1]', lambda args: bf.get_wmwf_vector(args[0], args[1], reference_channel=1), Pxx, Pnn)
     reg('get_wmwf_vector[ref 2, mu 0.5]', lambda args: bf.get_wmwf_vector(args[0], args[1], reference_channel=2,
                                                                             distortion_weight=0.5), Pxx, Pnn)
+    # badly conditioned (1e9 ... 1e11) but regular noise PSDs in some bins: a noise mask active in fewer frames than
+    # there are microphones, plus a little sensor noise
+    Pnn_ill = Pnn.copy()
+    for f_, lvl in ((0, 1e-9), (F - 1, 1e-11)):
+        v_ = A.cnormal(r, (D,))
+        Pnn_ill[f_] = np.outer(v_, v_.conj()) + lvl * np.eye(D)
+    for nm_, fn_ in (('get_mvdr_vector_souden', lambda args: bf.get_mvdr_vector_souden(args[0], args[1], ref_channel=0)),
+                     ('get_wmwf_vector', lambda args: bf.get_wmwf_vector(args[0], args[1], reference_channel=0)),
+                     ('get_gev_vector', lambda args: bf.get_gev_vector(args[0], args[1])),
+                     ('get_lcmv_vector_souden', lambda args: bf.get_lcmv_vector_souden(args[0], args[0][::-1].copy(),
+                                                                                        args[1], ref_channel=0)),
+                     ('get_bf_vector[mvdr_souden]', lambda args: bw.get_bf_vector('mvdr_souden', args[0], args[1],
+                                                                                  ref_channel=0)),
+                     ('blind_analytic_normalization', lambda args: bf.blind_analytic_normalization(args[0][:, :, 0],
+                                                                                                    args[1]))):
+        reg(nm_ + '[badly conditioned noise PSD]', fn_, Pxx, Pnn_ill)
+    reg('get_mvdr_vector[badly conditioned noise PSD]', lambda args: bf.get_mvdr_vector(args[0], args[1]), atf, Pnn_ill)
     Pxx_dead = Pxx.copy()
     Pxx_dead[1, 0, :] = 0
     Pxx_dead[1, :, 0] = 0                                         # first microphone silent in bin 1
